@@ -265,10 +265,16 @@ func Decode(m Msg) M {
 		names := []any{}
 		oids := []any{}
 		fmts := []any{}
+		tables := []any{}
+		attrs := []any{}
 		for i := 0; i < n && c.ok; i++ {
 			name := c.str()
-			c.i32()
-			c.i16()
+			tbl := c.i32()
+			att := c.i16()
+			if c.ok {
+				tables = append(tables, tbl)
+				attrs = append(attrs, att)
+			}
 			oid := c.i32()
 			c.i16()
 			c.i32()
@@ -285,6 +291,8 @@ func Decode(m Msg) M {
 		r["names"] = names
 		r["oids"] = oids
 		r["fmts"] = fmts
+		r["tables"] = tables
+		r["attrs"] = attrs
 		decl, items = n, len(names)
 	case 'D':
 		n := c.u16()
